@@ -203,6 +203,7 @@ class StmtMixin:
         if isinstance(t, ast.Name):
             f = fr
             # comprehension sub-frames write to their own locals; closures never rebind outer names (no nonlocal)
+            v = self.coerce_kind(v, ex.ghost.get('__local_kinds__', {}).get((fr.fi.qualname if fr.fi else None, t.id)))
             f.locals[t.id] = v
         elif isinstance(t, ast.Attribute):
             self.setattr(self.eval(t.value, fr), t.attr, v, node or t, fr)
@@ -222,6 +223,16 @@ class StmtMixin:
                 self.assign(sub, pv, fr, node)
         else:
             raise Undecided('assignment target ' + type(t).__name__)
+
+    def coerce_kind(self, v, kind):
+        """a declared symbolic container kind for a location that the code initialises with a literal"""
+        ex = self.ex
+        if kind == 'symlist' and isinstance(v, VRef) and isinstance(ex.heap[v.addr], HList):
+            seq = self.as_seq(VTuple(ex.heap[v.addr].items))
+            for e in self.tracked():
+                self.fact_part(e, seq)
+            ex.heap[v.addr] = HSymList(seq)
+        return v
 
     def unpack(self, v, n, node):
         ex = self.ex
@@ -548,7 +559,7 @@ class StmtMixin:
         frame_snap = ex.snapshot_locations(fr)
         # 3. assume invariant
         for inv in lc.invariant:
-            ex.assume(ex.spec_bool(inv, fr))
+            ex.assume(ex.spec_bool(inv, fr, mode='assume'))
         if not ex.feasible():
             raise PathEnd('loop invariant contradicts path')
         v0 = ex.spec_term(lc.variant, fr) if lc.variant is not None else None
@@ -565,6 +576,8 @@ class StmtMixin:
         ex.oblige('cover', z3.BoolVal(True), f'{lab} body reachable', st, key=(lab, 'cover'))
         if iter_setup:
             iter_setup['bind']()
+            if lc.on_bind:
+                lc.on_bind(ex, fr)
         try:
             self.exec_block(st.body, fr)
         except BreakSig:
@@ -582,6 +595,9 @@ class StmtMixin:
             v1 = ex.spec_term(lc.variant, fr)
             ex.oblige('var-dec', v1 < v0, f'{lab} variant decreases: {spec_text(lc.variant)}', st, key=(lab, 'dec'))
             ex.oblige('var-bound', v0 >= 0, f'{lab} variant bounded below', st, key=(lab, 'bound'))
+        for i, pg in enumerate(lc.progress):
+            ex.ghost['__iter_start__'] = frame_snap
+            ex.oblige('var-dec', ex.spec_bool(pg, fr), f'{lab} progress[{i}]: {spec_text(pg)}', st, key=(lab, 'progress', i))
         ex.check_frame(frame_snap, lc.modifies, fr, st, lab)
         raise PathEnd('loop back edge')
 
